@@ -217,9 +217,14 @@ Record variant := mkVar {
   v_sel : bool;    (* store path of query / keyrangevalues selects fields like the memory path *)
   v_range : bool;  (* store path of keyrange / keyrangevalues selects keys numerically *)
   v_meta : bool;   (* Initialize loads the JSON schema bytes like the other two metadata *)
+  v_ftime : bool;  (* fieldtimes is computed from the annotations (memory and store path) *)
+  v_schdel : bool; (* DELETE json_schema also drops the compiled schema *)
+  v_binit : bool;  (* initMemoryDB registers only existing branches and committed versions *)
 }.
-Definition repaired : variant := mkVar true true true true true true.
-Definition shipped : variant := mkVar false false false false false false.
+Definition repaired : variant := mkVar true true true true true true true true true.
+(* repairs 1-6 only: /repo after the first six fix: commits *)
+Definition interim : variant := mkVar true true true true true true false false false.
+Definition shipped : variant := mkVar false false false false false false false false false.
 
 (* memstore.go:173 *)
 Definition addBodyID (ids : list N) (b : N) : res (list N) :=
@@ -251,61 +256,114 @@ Record memdb := mkMem {
   m_ids : list N;
   m_fields : fcounts;
   m_ftimes : list (bytes * bytes);
+  m_ftdirty : bool;                (* fieldTimes must be recomputed before it is served (repair 7) *)
 }.
 Record vstore := mkVS {
   s_data : ndata;
   s_meta : list (N * bytes);      (* schema kind -> bytes *)
 }.
+(* a version: the n-th of master counted from the root, or the i-th of the second branch "b" *)
+Inductive vref := VM (abs : nat) | VB (i : nat).
+Definition vref_eqb (a b : vref) : bool :=
+  match a, b with VM x, VM y | VB x, VB y => Nat.eqb x y | _, _ => false end.
+(* the store configuration "inmemory": [":b"] and version uuids *)
+Record config := mkCfg { cfg_branch : bool; cfg_static : list vref }.
+Record bchain := mkB { b_head : vstore; b_parents : list vstore; b_locked : bool }.
+
 Record state := mkSt {
   st_mem : memdb;                  (* dbs.head["master"] *)
   st_mmeta : list (N * bytes);     (* d.metadata *)
+  st_compiled : option bytes;      (* the schema d.compiledSchema was compiled from *)
   st_head : vstore;                (* leaf of master *)
   st_parents : list vstore;        (* committed ancestors, nearest first *)
   st_locked : bool;
+  st_branch : option bchain;       (* the second branch, once created *)
+  st_bmem : option memdb;          (* dbs.head["b"] *)
+  st_static : list (vref * memdb); (* dbs.static *)
+  st_cfg : config;                 (* read by Initialize: at instance creation and at every restart *)
 }.
 Definition mget := @aget N bytes N.eqb.
 Definition mset := @aset N bytes N.eqb.
 Definition mdel := @adel N bytes N.eqb.
 
-Definition empty_mem : memdb := mkMem [] [] [] [].
-Definition init_state : state := mkSt empty_mem [] (mkVS [] []) [] false.
+(* type Schema (iota), read from neuronjson.go into Gen/Consts.v *)
+Definition k_json_schema : N := n_nj_JSONSchema.
+Definition k_schema : N := n_nj_NeuSchema.
+Definition k_schema_batch : N := n_nj_NeuSchemaBatch.
 
-(* fieldTimes[root] = newData[field].(string): a non-string value panics *)
-Fixpoint set_ftimes (o : obj) (ft : list (bytes * bytes)) : res (list (bytes * bytes)) :=
+Definition empty_mem : memdb := mkMem [] [] [] [] false.
+Definition no_cfg : config := mkCfg false [].
+Definition init_state : state := mkSt empty_mem [] None (mkVS [] []) [] false None None [] no_cfg.
+
+(* the master part of a state replaced *)
+Definition with_master (s : state) (m : memdb) (mm : list (N * bytes)) (c : option bytes)
+           (h : vstore) (ps : list vstore) (l : bool) : state :=
+  mkSt m mm c h ps l (st_branch s) (st_bmem s) (st_static s) (st_cfg s).
+Definition with_branch (s : state) (b : option bchain) (bm : option memdb) : state :=
+  mkSt (st_mem s) (st_mmeta s) (st_compiled s) (st_head s) (st_parents s) (st_locked s) b bm (st_static s) (st_cfg s).
+
+(* fieldTimes[root] = newData[field] for the string-valued *_time fields *)
+Fixpoint set_ftimes (o : obj) (ft : list (bytes * bytes)) : list (bytes * bytes) :=
   match o with
-  | [] => Ok ft
+  | [] => ft
   | (f, v) :: r =>
       if is_timef f then
         match v with
         | JStr s => set_ftimes r (@aset bytes bytes bytes_eqb (strip5 f) s ft)
-        | _ => Panic
+        | _ => set_ftimes r ft
         end
       else set_ftimes r ft
   end.
 
-(* storeAndUpdate (neuronjson.go:1416) on the head version *)
-Definition storeAndUpdate (V : variant) (s : state) (id : N) (new0 : obj)
-           (user : bytes) (conds : list bytes) (replace : bool) (timeStr : bytes) : res state :=
-  let orig := nget id (s_data (st_head s)) in
+(* a *_user / *_time field must be a string (or null) *)
+Definition bad_stamp (o : obj) : bool :=
+  existsb (fun p => is_meta (fst p) && negb (is_null (snd p)) && match snd p with JStr _ => false | _ => true end) o.
+
+(* the memdb part of storeAndUpdate: data, field counters, fieldTimes, sorted ids *)
+Definition mem_put (V : variant) (m : memdb) (id : N) (orig orig1 : option obj) (new' : obj) : res memdb :=
+  let dec_fields := match (if v_cnt V then orig else orig1) with Some o => dom o | None => [] end in
+  let fields := fold_left (cadd 1) (dom new') (fold_left (cadd (-1)) dec_fields (m_fields m)) in
+  let ft := if v_ftime V then m_ftimes m else set_ftimes new' (m_ftimes m) in
+  res_bind (addBodyID (m_ids m) id) (fun ids =>
+    Ok (mkMem (nset id new' (m_data m)) ids fields ft (v_ftime V || m_ftdirty m))).
+
+(* the memdb part of DeleteData *)
+Definition mem_del (V : variant) (m : memdb) (id : N) : res memdb :=
+  match nget id (m_data m) with
+  | Some o =>
+      res_bind (deleteBodyID V (m_ids m) id) (fun ids =>
+        Ok (mkMem (ndel id (m_data m)) ids (fold_left (cadd (-1)) (dom o) (m_fields m)) (m_ftimes m)
+                  (v_ftime V || m_ftdirty m)))
+  | None => Ok m
+  end.
+
+(* storeAndUpdate (neuronjson.go:1416) on a version served by [om] (None: no memdb, store only) *)
+Definition sau (V : variant) (om : option memdb) (st : vstore) (id : N) (new0 : obj)
+           (user : bytes) (conds : list bytes) (replace : bool) (timeStr : bytes) : res (option memdb * vstore) :=
+  let orig := nget id (s_data st) in
   if omem (fuser s_bodyid) new0 || omem (ftime s_bodyid) new0 then Err
+  else if bad_stamp new0 then Err
   else
     let '(orig1, new') := updateJSON user conds replace timeStr orig new0 in
-    let m := st_mem s in
-    let dec_fields := match (if v_cnt V then orig else orig1) with Some o => dom o | None => [] end in
-    let fields := fold_left (cadd 1) (dom new') (fold_left (cadd (-1)) dec_fields (m_fields m)) in
-    res_bind (set_ftimes new' (m_ftimes m)) (fun ft =>
-    res_bind (addBodyID (m_ids m) id) (fun ids =>
-      Ok (mkSt (mkMem (nset id new' (m_data m)) ids fields ft) (st_mmeta s)
-               (mkVS (nset id new' (s_data (st_head s))) (s_meta (st_head s)))
-               (st_parents s) (st_locked s)))).
+    let st' := mkVS (nset id new' (s_data st)) (s_meta st) in
+    match om with
+    | Some m => res_bind (mem_put V m id orig orig1 new') (fun m' => Ok (Some m', st'))
+    | None => Ok (None, st')
+    end.
 
 Definition max_u64 : N := 18446744073709551615.
 
-(* PutData (neuronjson.go:1470): [valid] is the JSON-schema validator's verdict *)
-Definition putData (V : variant) (s : state) (key : N) (body : list (bytes * json)) (valid : bool)
-           (user : bytes) (conds : list bytes) (replace : bool) (timeStr : bytes) : res state :=
-  if st_locked s then Err
-  else if negb (nonempty user) then Err
+(* PutData (neuronjson.go:1470) on an open version.  [sch] is the JSON schema getJSONSchema finds,
+   [vd] the validator's verdict on the body for each schema that rejects it (oracle; a schema not
+   listed accepts, one that does not compile too) *)
+Definition put (V : variant) (om : option memdb) (st : vstore) (sch : option bytes)
+           (key : N) (body : list (bytes * json)) (vd : list (bytes * bool))
+           (user : bytes) (conds : list bytes) (replace : bool) (timeStr : bytes) : res (option memdb * vstore) :=
+  let valid := match sch with
+               | Some sc => match @aget bytes bool bytes_eqb sc vd with Some b => b | None => true end
+               | None => true
+               end in
+  if negb (nonempty user) then Err
   else if key =? 0 then Err
   else if negb valid then Err
   else
@@ -313,24 +371,33 @@ Definition putData (V : variant) (s : state) (key : N) (body : list (bytes * jso
     match oget s_bodyid new0 with
     | Some (JNum z) =>
         if (0 <=? z)%Z && (z <=? Z.of_N max_u64)%Z && (Z.to_N z =? key)
-        then storeAndUpdate V s key new0 user conds replace timeStr
+        then sau V om st key new0 user conds replace timeStr
         else Err
     | _ => Err
+    end.
+
+(* getJSONSchema on the open head of master: the compiled schema if there is one, else the stored bytes *)
+Definition schema_in_force (s : state) : option bytes :=
+  match st_compiled s with Some b => Some b | None => mget k_json_schema (s_meta (st_head s)) end.
+
+Definition putData (V : variant) (s : state) (key : N) (body : list (bytes * json)) (vd : list (bytes * bool))
+           (user : bytes) (conds : list bytes) (replace : bool) (timeStr : bytes) : res state :=
+  if st_locked s then Err
+  else
+    match put V (Some (st_mem s)) (st_head s) (schema_in_force s) key body vd user conds replace timeStr with
+    | Ok (Some m, st') => Ok (with_master s m (st_mmeta s) (st_compiled s) st' (st_parents s) (st_locked s))
+    | Ok (None, _) => Err        (* not reachable: the head of master has its memdb *)
+    | Err => Err
+    | Panic => Panic
     end.
 
 (* DeleteData (neuronjson.go:1557) *)
 Definition deleteData (V : variant) (s : state) (id : N) : res state :=
   if st_locked s then Err
   else
-    let m := st_mem s in
-    let st' := mkVS (ndel id (s_data (st_head s))) (s_meta (st_head s)) in
-    match nget id (m_data m) with
-    | Some o =>
-        res_bind (deleteBodyID V (m_ids m) id) (fun ids =>
-          Ok (mkSt (mkMem (ndel id (m_data m)) ids (fold_left (cadd (-1)) (dom o) (m_fields m)) (m_ftimes m))
-                   (st_mmeta s) st' (st_parents s) (st_locked s)))
-    | None => Ok (mkSt m (st_mmeta s) st' (st_parents s) (st_locked s))
-    end.
+    res_bind (mem_del V (st_mem s) id) (fun m =>
+      Ok (with_master s m (st_mmeta s) (st_compiled s)
+            (mkVS (ndel id (s_data (st_head s))) (s_meta (st_head s))) (st_parents s) (st_locked s))).
 
 (* ---------- reload: Initialize / initMemoryDB / loadMemDB / initFieldTimes ---------- *)
 Fixpoint isort_ins (x : N) (l : list N) : list N :=
@@ -348,9 +415,9 @@ Fixpoint bytes_ltb (a b : bytes) : bool :=
   end.
 Definition bytes_leb (a b : bytes) : bool := negb (bytes_ltb b a).
 
-Fixpoint init_ftimes_obj (o : obj) (ft : list (bytes * bytes)) : res (list (bytes * bytes)) :=
+Fixpoint init_ftimes_obj (o : obj) (ft : list (bytes * bytes)) : list (bytes * bytes) :=
   match o with
-  | [] => Ok ft
+  | [] => ft
   | (f, v) :: r =>
       if is_timef f then
         match v with
@@ -360,29 +427,21 @@ Fixpoint init_ftimes_obj (o : obj) (ft : list (bytes * bytes)) : res (list (byte
             | None => init_ftimes_obj r (@aset bytes bytes bytes_eqb root t ft)
             | Some old => init_ftimes_obj r (if bytes_ltb old t then @aset bytes bytes bytes_eqb root t ft else ft)
             end
-        | _ => Panic
+        | _ => init_ftimes_obj r ft
         end
       else init_ftimes_obj r ft
   end.
-Fixpoint init_ftimes (d : ndata) (ft : list (bytes * bytes)) : res (list (bytes * bytes)) :=
-  match d with
-  | [] => Ok ft
-  | (_, o) :: r => res_bind (init_ftimes_obj o ft) (init_ftimes r)
-  end.
+(* the newest *_time per field over a set of annotations *)
+Definition ft_of (d : ndata) : list (bytes * bytes) :=
+  fold_left (fun ft p => init_ftimes_obj (snd p) ft) d [].
 
 (* field counters as computed by a scan: addAnnotation on load, getFieldCounts on the store path *)
 Definition scan_counts (d : ndata) : fcounts :=
   fold_left (fun acc p => fold_left (cadd 1) (dom (snd p)) acc) d [].
 
-Definition loadMemDB (d : ndata) : res memdb :=
+Definition loadMemDB (d : ndata) : memdb :=
   let data := fold_left (fun acc p => nset (fst p) (snd p) acc) d [] in
-  res_bind (init_ftimes data []) (fun ft =>
-    Ok (mkMem data (sort_ids (map fst d)) (scan_counts d) ft)).
-
-(* type Schema (iota), read from neuronjson.go into Gen/Consts.v *)
-Definition k_json_schema : N := n_nj_JSONSchema.
-Definition k_schema : N := n_nj_NeuSchema.
-Definition k_schema_batch : N := n_nj_NeuSchemaBatch.
+  mkMem data (sort_ids (map fst d)) (scan_counts d) (ft_of data) false.
 
 Definition load_meta (V : variant) (locked : bool) (sm : list (N * bytes)) : list (N * bytes) :=
   let m0 := if v_meta V || negb locked
@@ -391,15 +450,61 @@ Definition load_meta (V : variant) (locked : bool) (sm : list (N * bytes)) : lis
   let m1 := match mget k_schema sm with Some b => mset k_schema b m0 | None => m0 end in
   match mget k_schema_batch sm with Some b => mset k_schema_batch b m1 | None => m1 end.
 
-Definition reload (V : variant) (s : state) : res state :=
-  res_bind (loadMemDB (s_data (st_head s))) (fun m =>
-    Ok (mkSt m (load_meta V (st_locked s) (s_meta (st_head s))) (st_head s) (st_parents s) (st_locked s))).
+(* versions by reference *)
+Definition resolve (s : state) (ref : vref) : option vstore :=
+  match ref with
+  | VM a => nth_error (rev (st_head s :: st_parents s)) a
+  | VB i => match st_branch s with
+            | Some b => nth_error (rev (b_head b :: b_parents b)) i
+            | None => None
+            end
+  end.
+Definition is_master_head (s : state) (ref : vref) : bool :=
+  match ref with VM a => Nat.eqb a (length (st_parents s)) | VB _ => false end.
+Definition is_branch_head (s : state) (ref : vref) : bool :=
+  match ref, st_branch s with VB i, Some b => Nat.eqb i (length (b_parents b)) | _, _ => false end.
+Definition committed (s : state) (ref : vref) : bool :=
+  match ref with
+  | VM a => Nat.ltb a (length (st_parents s)) || (Nat.eqb a (length (st_parents s)) && st_locked s)
+  | VB i => match st_branch s with
+            | Some b => Nat.ltb i (length (b_parents b)) || (Nat.eqb i (length (b_parents b)) && b_locked b)
+            | None => false
+            end
+  end.
+Definition static_get (ref : vref) (l : list (vref * memdb)) : option memdb := @aget vref memdb vref_eqb ref l.
+
+(* the read-only UUID dbs: loaded, and (before repair 7) without fieldTimes *)
+Definition load_static (V : variant) (d : ndata) : memdb :=
+  let m := loadMemDB d in
+  if v_ftime V then m else mkMem (m_data m) (m_ids m) (m_fields m) [] false.
+
+(* the UUID db initMemoryDB builds for a configured version (repair 9: only if committed);
+   configurations naming unknown versions are not modelled *)
+Definition static_entry (V : variant) (s : state) (ref : vref) : option memdb :=
+  match resolve s ref with
+  | Some v => if v_binit V && negb (committed s ref) then None else Some (load_static V (s_data v))
+  | None => None
+  end.
+
+Definition reload (V : variant) (s : state) : state :=
+  let bm := if cfg_branch (st_cfg s)
+            then match st_branch s with
+                 | Some b => Some (loadMemDB (s_data (b_head b)))
+                 | None => if v_binit V then None else Some empty_mem   (* an empty db registered under the name *)
+                 end
+            else None in
+  let statics := fold_right (fun ref acc =>
+                   match static_entry V s ref with Some m => (ref, m) :: acc | None => acc end)
+                   [] (cfg_static (st_cfg s)) in
+  mkSt (loadMemDB (s_data (st_head s))) (load_meta V (st_locked s) (s_meta (st_head s)))
+       (mget k_json_schema (s_meta (st_head s))) (st_head s) (st_parents s) (st_locked s)
+       (st_branch s) bm statics (st_cfg s).
 
 (* ---------- histories ---------- *)
-Record kvitem := mkKV { kv_key : N; kv_body : list (bytes * json); kv_valid : bool; kv_time : bytes }.
+Record kvitem := mkKV { kv_key : N; kv_body : list (bytes * json); kv_vd : list (bytes * bool); kv_time : bytes }.
 
 Inductive op :=
-| OpPost (key : N) (body : list (bytes * json)) (valid : bool)
+| OpPost (key : N) (body : list (bytes * json)) (vd : list (bytes * bool))
          (user : bytes) (conds : list bytes) (replace : bool) (timeStr : bytes)
 | OpPostKVs (items : list kvitem) (user : bytes) (conds : list bytes) (replace : bool)
 | OpDelete (key : N)
@@ -407,7 +512,10 @@ Inductive op :=
 | OpMetaDelete (kind : N)
 | OpCommit
 | OpNewVersion
-| OpReload.
+| OpReload
+| OpBranch (from : nat)          (* POST branch "b" on the committed master version [from] *)
+| OpOnBranch (o : op)            (* the request addressed to the head of branch "b" *)
+| OpSetConfig (c : config).      (* the store's "inmemory" setting; read at the next restart *)
 
 (* handleIngest: PutData per item, stops at the first error; earlier items stay applied *)
 Fixpoint putKVs (V : variant) (s : state) (items : list kvitem) (user : bytes) (conds : list bytes)
@@ -415,43 +523,129 @@ Fixpoint putKVs (V : variant) (s : state) (items : list kvitem) (user : bytes) (
   match items with
   | [] => (s, Ok tt)
   | it :: r =>
-      match putData V s (kv_key it) (kv_body it) (kv_valid it) user conds replace (kv_time it) with
+      match putData V s (kv_key it) (kv_body it) (kv_vd it) user conds replace (kv_time it) with
       | Ok s' => putKVs V s' r user conds replace
       | Err => (s, Err)
       | Panic => (s, Panic)
       end
   end.
 
+Definition lift_state (s : state) (r : res state) : state * res unit :=
+  match r with Ok s' => (s', Ok tt) | Err => (s, Err) | Panic => (s, Panic) end.
+
+(* which memdb an update of the open master head reaches: before repair 9 an open version could
+   be configured as a read-only UUID db, and getMemDBbyVersion looks there first *)
+Definition head_static (V : variant) (s : state) : option memdb :=
+  if v_binit V then None else static_get (VM (length (st_parents s))) (st_static s).
+Definition set_static (ref : vref) (m : memdb) (l : list (vref * memdb)) := @aset vref memdb vref_eqb ref m l.
+
+(* requests on the head of branch "b": no metadata cache (ctx.Head() is false off master), the
+   memdb dbs.head["b"] if one is registered *)
+Definition step_branch (V : variant) (s : state) (o : op) : state * res unit :=
+  match st_branch s with
+  | None => (s, Err)
+  | Some b =>
+      let st := b_head b in
+      match o with
+      | OpPost key body vd user conds replace t =>
+          if b_locked b then (s, Err)
+          else match put V (st_bmem s) st (mget k_json_schema (s_meta st)) key body vd user conds replace t with
+               | Ok (bm, st') => (with_branch s (Some (mkB st' (b_parents b) false)) bm, Ok tt)
+               | Err => (s, Err)
+               | Panic => (s, Panic)
+               end
+      | OpDelete key =>
+          if b_locked b then (s, Err)
+          else
+            let st' := mkVS (ndel key (s_data st)) (s_meta st) in
+            match st_bmem s with
+            | Some m => match mem_del V m key with
+                        | Ok m' => (with_branch s (Some (mkB st' (b_parents b) false)) (Some m'), Ok tt)
+                        | Err => (s, Err)
+                        | Panic => (s, Panic)
+                        end
+            | None => (with_branch s (Some (mkB st' (b_parents b) false)) None, Ok tt)
+            end
+      | OpMetaPost kind val =>
+          if b_locked b || (3 <=? kind) then (s, Err)
+          else (with_branch s (Some (mkB (mkVS (s_data st) (mset kind val (s_meta st))) (b_parents b) false)) (st_bmem s), Ok tt)
+      | OpMetaDelete kind =>
+          if b_locked b || (3 <=? kind) then (s, Err)
+          else (with_branch s (Some (mkB (mkVS (s_data st) (mdel kind (s_meta st))) (b_parents b) false)) (st_bmem s), Ok tt)
+      | OpCommit =>
+          if b_locked b then (s, Err) else (with_branch s (Some (mkB st (b_parents b) true)) (st_bmem s), Ok tt)
+      | OpNewVersion =>
+          if b_locked b then (with_branch s (Some (mkB st (st :: b_parents b) false)) (st_bmem s), Ok tt) else (s, Err)
+      | _ => (s, Err)             (* not sent to the branch by the driver *)
+      end
+  end.
+
 (* one request: the new state and the response class (Err = HTTP 4xx, nothing changed) *)
 Definition step (V : variant) (s : state) (o : op) : state * res unit :=
-  let lift (r : res state) : state * res unit :=
-    match r with Ok s' => (s', Ok tt) | Err => (s, Err) | Panic => (s, Panic) end in
   match o with
-  | OpPost key body valid user conds replace t => lift (putData V s key body valid user conds replace t)
+  | OpPost key body vd user conds replace t =>
+      match head_static V s with
+      | None => lift_state s (putData V s key body vd user conds replace t)
+      | Some sm =>
+          (* the update goes to the UUID db of the open head, not to the HEAD db of master *)
+          if st_locked s then (s, Err)
+          else match put V (Some sm) (st_head s) (schema_in_force s) key body vd user conds replace t with
+               | Ok (Some m, st') =>
+                   (mkSt (st_mem s) (st_mmeta s) (st_compiled s) st' (st_parents s) (st_locked s) (st_branch s)
+                         (st_bmem s) (set_static (VM (length (st_parents s))) m (st_static s)) (st_cfg s), Ok tt)
+               | Ok (None, _) | Err => (s, Err)
+               | Panic => (s, Panic)
+               end
+      end
   | OpPostKVs items user conds replace =>
       if st_locked s then (s, Err) else putKVs V s items user conds replace
-  | OpDelete key => lift (deleteData V s key)
+  | OpDelete key =>
+      match head_static V s with
+      | None => lift_state s (deleteData V s key)
+      | Some sm =>
+          if st_locked s then (s, Err)
+          else match mem_del V sm key with
+               | Ok m => (mkSt (st_mem s) (st_mmeta s) (st_compiled s)
+                               (mkVS (ndel key (s_data (st_head s))) (s_meta (st_head s))) (st_parents s) (st_locked s)
+                               (st_branch s) (st_bmem s) (set_static (VM (length (st_parents s))) m (st_static s)) (st_cfg s), Ok tt)
+               | Err => (s, Err)
+               | Panic => (s, Panic)
+               end
+      end
   | OpMetaPost kind val =>
       if st_locked s || (3 <=? kind) then (s, Err)     (* three metadata endpoints: kinds 0, 1, 2 *)
-      else (mkSt (st_mem s) (mset kind val (st_mmeta s))
+      else (with_master s (st_mem s) (mset kind val (st_mmeta s))
+                 (if kind =? k_json_schema then Some val else st_compiled s)
                  (mkVS (s_data (st_head s)) (mset kind val (s_meta (st_head s))))
                  (st_parents s) (st_locked s), Ok tt)
   | OpMetaDelete kind =>
       if st_locked s || (3 <=? kind) then (s, Err)
-      else (mkSt (st_mem s) (mdel kind (st_mmeta s))
+      else (with_master s (st_mem s) (mdel kind (st_mmeta s))
+                 (if (kind =? k_json_schema) && v_schdel V then None else st_compiled s)
                  (mkVS (s_data (st_head s)) (mdel kind (s_meta (st_head s))))
                  (st_parents s) (st_locked s), Ok tt)
   | OpCommit =>
       if st_locked s then (s, Err)
-      else (mkSt (st_mem s) (st_mmeta s) (st_head s) (st_parents s) true, Ok tt)
+      else (with_master s (st_mem s) (st_mmeta s) (st_compiled s) (st_head s) (st_parents s) true, Ok tt)
   | OpNewVersion =>
       if st_locked s
-      then (mkSt (st_mem s) (st_mmeta s) (st_head s) (st_head s :: st_parents s) false, Ok tt)
+      then (with_master s (st_mem s) (st_mmeta s) (st_compiled s) (st_head s) (st_head s :: st_parents s) false, Ok tt)
       else (s, Err)
-  | OpReload => lift (reload V s)
+  | OpReload => (reload V s, Ok tt)
+  | OpBranch from =>
+      match st_branch s, resolve s (VM from) with
+      | None, Some v => if committed s (VM from)
+                        then (with_branch s (Some (mkB v [] false)) (st_bmem s), Ok tt)
+                        else (s, Err)
+      | _, _ => (s, Err)
+      end
+  | OpOnBranch o' => step_branch V s o'
+  | OpSetConfig c =>
+      (mkSt (st_mem s) (st_mmeta s) (st_compiled s) (st_head s) (st_parents s) (st_locked s)
+            (st_branch s) (st_bmem s) (st_static s) c, Ok tt)
   end.
 
-(* a history; a panic (the request wedges the server: the memdb mutex stays locked) ends it *)
+(* a history; a panic ends it *)
 Fixpoint run (V : variant) (s : state) (h : list op) : res state :=
   match h with
   | [] => Ok s
@@ -503,8 +697,7 @@ Inductive qval :=
 | QRe (m : bytes -> bool)
 | QExists (b : bool)
 | QMix (l : list (bytes + (bytes -> bool)))   (* []interface{} of strings and regexps *)
-| QFlts (l : list N)                   (* []interface{} of float64 (all elements floats) *)
-| QFltThen (l : list N)                (* float64s followed by a non-float: val.(float64) panics there *)
+| QFlts (l : list N)                   (* []interface{} whose first element is a number: its float64 elements *)
 | QOther.                              (* bool, object, ...: "illegal type" *)
 
 Definition two63 : Z := 9223372036854775808%Z.
@@ -521,14 +714,10 @@ Definition all_strs (l : list json) : option (list bytes) :=
   fold_right (fun v acc => match v, acc with JStr s, Some r => Some (s :: r) | _, _ => None end) (Some []) l.
 Definition is_num_or_flt (v : json) : bool := match v with JNum _ | JFlt _ => true | _ => false end.
 
-(* leading float64 elements of a []interface{} (every JSON number is a float64 there) *)
-Fixpoint lead_floats (l : list json) : list N * bool :=
-  match l with
-  | [] => ([], true)
-  | JFlt t :: r => let '(a, b) := lead_floats r in (t :: a, b)
-  | JNum z :: r => let '(a, b) := lead_floats r in (a, b)   (* integral float: matches no fieldFloatList entry *)
-  | _ :: _ => ([], false)
-  end.
+(* the non-integral float64 elements of a []interface{} (elements of another type are skipped;
+   an integral float matches no fieldFloatList entry) *)
+Definition float_elems (l : list json) : list N :=
+  fold_right (fun v acc => match v with JFlt t => t :: acc | _ => acc end) [] l.
 
 (* QueryJSON.UnmarshalJSON, on an already tokenised value *)
 Definition qparse (v : json) : qval :=
@@ -558,7 +747,7 @@ Definition qparse (v : json) : qval :=
               match l with
               | JStr _ :: _ => QMix (fold_right (fun v acc => match v with JStr s => inl s :: acc | _ => acc end) [] l)
               | JNum _ :: _ | JFlt _ :: _ =>
-                  let '(fl, allf) := lead_floats l in if allf then QFlts fl else QFltThen fl
+                  QFlts (float_elems l)
               | _ => QOther
               end
           end
@@ -600,7 +789,6 @@ Definition fieldMatch (q : qval) (fv : json) : res bool :=
         | QExists _ => Ok false
         | QMix l => Ok (existsb (fun e => match e with inl s => smem s fs | inr m => existsb m fs end) l)
         | QFlts l => Ok (existsb (fun t => fmem t ff) l)
-        | QFltThen l => if existsb (fun t => fmem t ff) l then Ok true else Panic
         | QOther => Ok false
         end
     end.
@@ -665,10 +853,14 @@ Inductive rreq :=
 | RFields
 | RFieldCounts
 | RKeyRange (a b : bytes)
-| RKeyRangeValues (a b : bytes) (fm : list bytes) (sh : shows)
-| RKeyValues (keys : list N) (fm : list bytes) (sh : shows)
+| RKeyRangeValues (a b : bytes) (fm : list bytes) (sh : shows) (enc : N)   (* enc: 0 json, 1 tar, 2 protobuf *)
+| RKeyValues (keys : list N) (fm : list bytes) (sh : shows) (enc : N)
 | RQuery (ql : list query) (onlyid : bool) (fm : list bytes) (sh : shows)
-| RMeta (kind : N).
+| RMeta (kind : N)
+| RFieldTimes
+| RHeadKey (id : N)              (* HEAD key/<id> *)
+| RHeadMeta (kind : N)           (* HEAD <schema kind> *)
+| RSchemaInForce.                (* which JSON schema validates POSTs (observed by probing) *)
 
 Inductive rres :=
 | XObj (o : option obj)            (* GET key: None = 404 *)
@@ -678,6 +870,9 @@ Inductive rres :=
 | XCounts (l : fcounts)            (* fields?counts=true: a JSON object *)
 | XKVs (l : list (N * obj))        (* keyrangevalues, keyvalues: a JSON object *)
 | XBytes (o : option bytes)        (* schema: None = 404 *)
+| XTimes (l : list (bytes * bytes)) (* fieldtimes: a JSON object *)
+| XKVOs (l : list (N * option obj)) (* keyvalues as tar / protobuf: every requested key, None = empty value *)
+| XBool (b : bool)                 (* HEAD: true = 200, false = 404 *)
 | XErr                             (* HTTP 400 *)
 | XPanic.
 
@@ -740,28 +935,31 @@ Definition get_objs (d : ndata) (keys : list N) (fm : list bytes) (sh : shows) :
   map snd (get_kvs d keys fm sh).
 
 
-(* --- the in-memory path (served when the version is the head of master) --- *)
-Definition read_mem (V : variant) (m : memdb) (mm : list (N * bytes)) (r : rreq) : rres :=
+(* --- the in-memory path: annotation endpoints served from a memdb --- *)
+Definition pos_counts (V : variant) (m : memdb) : fcounts :=
+  if v_zero V then filter (fun p => (0 <? snd p)%Z) (m_fields m) else m_fields m.
+Definition get_kvos (d : ndata) (keys : list N) (fm : list bytes) (sh : shows) : list (N * option obj) :=
+  map (fun k => (k, get_obj d k fm sh)) keys.
+
+Definition read_memdb (V : variant) (m : memdb) (r : rreq) : rres :=
   match r with
   | RKey id fm sh => XObj (get_obj (m_data m) id fm sh)
   | RKeys => XIds (m_ids m)
   | RAll fm sh => XObjs (objs_gt1 (map (fun p => selectFields (snd p) fm sh) (m_data m)))
-  | RFields =>
-      let fc := if v_zero V then filter (fun p => (0 <? snd p)%Z) (m_fields m) else m_fields m in
-      XNames (map (fun p => if (0 <? snd p)%Z then fst p else []) fc)
-  | RFieldCounts =>
-      XCounts (if v_zero V then filter (fun p => (0 <? snd p)%Z) (m_fields m) else m_fields m)
+  | RFields => XNames (map (fun p => if (0 <? snd p)%Z then fst p else []) (pos_counts V m))
+  | RFieldCounts => XCounts (pos_counts V m)
   | RKeyRange a b =>
       match parseKeyStr a, parseKeyStr b with
       | Some lo, Some hi => lift_res (mem_range (m_ids m) lo hi) XIds
       | _, _ => XErr
       end
-  | RKeyRangeValues a b fm sh =>
+  | RKeyRangeValues a b fm sh _ =>
       match parseKeyStr a, parseKeyStr b with
       | Some lo, Some hi => lift_res (mem_range (m_ids m) lo hi) (fun ids => XKVs (get_kvs (m_data m) ids fm sh))
       | _, _ => XErr
       end
-  | RKeyValues keys fm sh => XKVs (get_kvs (m_data m) keys fm sh)
+  | RKeyValues keys fm sh enc =>
+      if enc =? 0 then XKVs (get_kvs (m_data m) keys fm sh) else XKVOs (get_kvos (m_data m) keys fm sh)
   | RQuery ql onlyid fm sh =>
       match ql with
       | [] => XErr
@@ -774,7 +972,10 @@ Definition read_mem (V : variant) (m : memdb) (mm : list (N * bytes)) (r : rreq)
               if onlyid then XIds (map fst l) else XObjs (map (fun p => selectFields (snd p) fm sh) l))
         end
       end
-  | RMeta kind => if 3 <=? kind then XErr else XBytes (mget kind mm)
+  | RFieldTimes =>
+      XTimes (if v_ftime V && m_ftdirty m then ft_of (m_data m) else m_ftimes m)
+  | RHeadKey id => XBool (match nget id (m_data m) with Some _ => true | None => false end)
+  | RMeta _ | RHeadMeta _ | RSchemaInForce => XErr       (* not memdb endpoints *)
   end.
 
 (* --- the store path --- *)
@@ -795,14 +996,14 @@ Definition read_store (V : variant) (st : vstore) (r : rreq) : rres :=
           XIds (filter (fun k => (if v_range V then true else lex_in a b k) && (lo <=? k) && (k <=? hi)) (map fst d))
       | _, _ => XErr
       end
-  | RKeyRangeValues a b fm sh =>
+  | RKeyRangeValues a b fm sh _ =>
       match parseKeyStr a, parseKeyStr b with
       | Some lo, Some hi =>
           let recs := filter (fun p => if v_range V then (lo <=? fst p) && (fst p <=? hi) else lex_in a b (fst p)) d in
           XKVs (map (fun p => (fst p, selectFields (if v_sel V then snd p else removeReserved (snd p) sh) fm sh)) recs)
       | _, _ => XErr
       end
-  | RKeyValues keys fm sh => XKVs (get_kvs d keys fm sh)
+  | RKeyValues keys fm sh enc => if enc =? 0 then XKVs (get_kvs d keys fm sh) else XKVOs (get_kvos d keys fm sh)
   | RQuery ql onlyid fm sh =>
       match ql with
       | [] => XErr
@@ -815,17 +1016,51 @@ Definition read_store (V : variant) (st : vstore) (r : rreq) : rres :=
         end
       end
   | RMeta kind => if 3 <=? kind then XErr else XBytes (mget kind (s_meta st))
+  | RFieldTimes => if v_ftime V then XTimes (ft_of d) else XErr     (* as shipped: no store path, HTTP 400 *)
+  | RHeadKey id => XBool (match nget id d with Some _ => true | None => false end)
+  | RHeadMeta kind => if 3 <=? kind then XErr
+                      else XBool (match mget kind (s_meta st) with Some _ => true | None => false end)
+  | RSchemaInForce => XBytes (mget k_json_schema (s_meta st))
   end.
 
-(* getMemDBbyVersion + ctx.Head(): version 0 is the head of master, n > 0 its n-th ancestor *)
+(* the head of master: annotations from its memdb, metadata from d.metadata / d.compiledSchema *)
+Definition read_mem (V : variant) (s : state) (r : rreq) : rres :=
+  match r with
+  | RMeta kind => if 3 <=? kind then XErr else XBytes (mget kind (st_mmeta s))
+  | RHeadMeta kind => if 3 <=? kind then XErr
+                      else XBool (match mget kind (st_mmeta s) with Some _ => true | None => false end)
+  | RSchemaInForce => XBytes (schema_in_force s)
+  | _ => read_memdb V (st_mem s) r
+  end.
+
+(* getMemDBbyVersion + ctx.Head(): version 0 is the head of master, n > 0 its n-th ancestor;
+   metadata come from memory only while the head is open *)
+Definition is_meta_req (r : rreq) : bool :=
+  match r with RMeta _ | RHeadMeta _ | RSchemaInForce => true | _ => false end.
 Definition read_version (V : variant) (s : state) (ver : nat) (r : rreq) : option rres :=
   match ver with
-  | O => Some (match r with
-               | RMeta _ => if st_locked s then read_store V (st_head s) r
-                            else read_mem V (st_mem s) (st_mmeta s) r
-               | _ => read_mem V (st_mem s) (st_mmeta s) r
-               end)
+  | O => Some (if is_meta_req r && st_locked s then read_store V (st_head s) r else read_mem V s r)
   | S n => option_map (fun st => read_store V st r) (nth_error (st_parents s) n)
+  end.
+
+(* getMemDBbyVersion for any version: the read-only UUID dbs first, then the HEAD dbs of the
+   branches; everything else, and all metadata off the open head of master, from the store *)
+Definition read_ref (V : variant) (s : state) (ref : vref) (r : rreq) : option rres :=
+  match resolve s ref with
+  | None => None
+  | Some v =>
+      Some (
+        if is_meta_req r then
+          (if is_master_head s ref && negb (st_locked s) then read_mem V s r else read_store V v r)
+        else
+          match static_get ref (st_static s) with
+          | Some m => read_memdb V m r
+          | None =>
+              if is_master_head s ref then read_memdb V (st_mem s) r
+              else if is_branch_head s ref
+                   then match st_bmem s with Some m => read_memdb V m r | None => read_store V v r end
+                   else read_store V v r
+          end)
   end.
 
 End Query.
@@ -843,5 +1078,9 @@ Inductive rres_equiv : rres -> rres -> Prop :=
                  rres_equiv (XCounts a) (XCounts b)       (* the same map field -> count *)
 | EqKVs a b : Permutation a b -> rres_equiv (XKVs a) (XKVs b)
 | EqBytes o : rres_equiv (XBytes o) (XBytes o)
+| EqTimes a b : (forall f, @aget bytes bytes bytes_eqb f a = @aget bytes bytes bytes_eqb f b) ->
+                rres_equiv (XTimes a) (XTimes b)
+| EqKVOs a b : Permutation a b -> rres_equiv (XKVOs a) (XKVOs b)
+| EqBool b : rres_equiv (XBool b) (XBool b)
 | EqErr : rres_equiv XErr XErr
 | EqPanic : rres_equiv XPanic XPanic.
